@@ -313,3 +313,85 @@ def main_wrapper(fn):
         traceback.print_exc()
         print('HARNESS-ERROR: unexpected exception in the machinery', file=sys.stderr)
         return 2
+
+
+# ---- coverage-guided stage (atheris / libFuzzer over the Hypothesis generators) ------------------------------------------------
+def hyp_fuzz_stage(ctx, mod, expr, secs=None, max_len=8192):
+    """Thorough tier: 16 libFuzzer shards mutate the byte strings Hypothesis decodes into cases of `expr` (a strategy expression
+    evaluated in the property module); the property's own oracle runs inside the target.  Violations found are re-executed here
+    through mod.replay() before they count.  A missing atheris or a shard that dies is reported as inconclusive, never as a
+    violation."""
+    import random as _random
+    import shutil
+    import subprocess
+    import tempfile
+    secs = int(secs or os.environ.get('VERIF_FUZZ_SECS', '240'))
+    target = os.path.join(ROOT, 'vf', 'fuzz_hyp.py')
+    try:
+        sys.path.insert(0, os.path.join(ROOT, '.deps'))
+        import atheris  # noqa: F401
+    except Exception:
+        ctx.stats.inconclusive.append('atheris is not installed: coverage-guided stage not run')
+        return
+    base = OUT_DIR if os.path.isdir(OUT_DIR) else None
+    work = tempfile.mkdtemp(prefix=ctx.prop.lower() + 'fuzz', dir=base)
+    env = dict(os.environ, PYTHONPATH=ROOT + os.pathsep + os.path.join(ROOT, '.deps'), PYTHONHASHSEED='0')
+    procs = []
+    try:
+        for shard in range(NCPU):
+            d = os.path.join(work, f's{shard}')
+            os.makedirs(os.path.join(d, 'corpus'))
+            rnd = _random.Random(ctx.seed * 64 + shard)
+            for i in range(16):
+                with open(os.path.join(d, 'corpus', f'r{i}'), 'wb') as fh:
+                    fh.write(bytes(rnd.getrandbits(8) for _ in range(rnd.choice([400, 1200, 3000, 6000]))))
+            procs.append(subprocess.Popen(
+                [sys.executable, target, ctx.prop, expr, os.path.join(d, 'out'), os.path.join(d, 'corpus'),
+                 f'-max_total_time={secs}', f'-seed={ctx.seed * 64 + shard + 1}', f'-max_len={max_len}', '-len_control=0',
+                 f'-artifact_prefix={d}/', '-timeout=300', '-rss_limit_mb=4096'],
+                cwd=d, env=env, stdout=subprocess.DEVNULL, stderr=open(os.path.join(d, 'log'), 'w')))
+        execs = 0
+        nt = 0
+        viol = {}
+        for shard, p in enumerate(procs):
+            try:
+                p.wait(timeout=secs + 600)
+            except subprocess.TimeoutExpired:
+                p.kill()
+                ctx.stats.inconclusive.append(f'fuzz shard {shard} had to be killed')
+            d = os.path.join(work, f's{shard}', 'out')
+            try:
+                prog = json.load(open(os.path.join(d, 'progress.json')))
+                execs += prog.get('executions', 0)
+                nt += prog.get('distinct_nontrivial', 0)
+                for k, v in prog.get('classes', {}).items():
+                    ctx.stats.classes['fuzz:' + k] += v
+            except Exception:
+                pass
+            if os.path.isdir(d):
+                for name in sorted(os.listdir(d)):
+                    if name.startswith('viol-'):
+                        body = json.load(open(os.path.join(d, name)))
+                        viol.setdefault(body['sig'], body)
+                if os.path.exists(os.path.join(d, 'harness-error.txt')):
+                    ctx.stats.inconclusive.append('harness error inside a fuzz shard: ' +
+                                                  open(os.path.join(d, 'harness-error.txt')).read()[:200])
+            crashed = [n for n in os.listdir(os.path.join(work, f's{shard}')) if n.startswith(('crash-', 'oom-', 'timeout-'))]
+            if crashed:
+                ctx.stats.inconclusive.append(f'fuzz shard {shard}: libFuzzer artifact {crashed[0]} (target exception / timeout), '
+                                              f'not counted as a violation')
+        for sig, body in viol.items():
+            fails = mod.replay(body['case'])
+            hit = [f for f in fails if not ctx.is_known(f.sig)]
+            for f in hit:
+                f.case = body['case']
+            if hit:
+                ctx.stats.failures += hit[:1]
+            else:
+                ctx.stats.inconclusive.append(f'fuzz finding {sig} did not reproduce on replay')
+        ctx.stats.evals += execs
+        ctx.extra['coverage_guided'] = {'engine': 'atheris/libFuzzer over Hypothesis fuzz_one_input', 'shards': len(procs),
+                                        'seconds_per_shard': secs, 'valid_executions': execs,
+                                        'nontrivial_cases_summed_over_shards': nt, 'strategy': expr}
+    finally:
+        shutil.rmtree(work, ignore_errors=True)
